@@ -434,7 +434,12 @@ impl Check for C05 {
         if let Some(f) = acc.first.lock().unwrap().clone() {
             return Err(f);
         }
+        // the direct constructors store types without going through the type checker: they
+        // must store what the type checker computes for the same node
+        let ctor_nodes = ctor_checks()?;
+        st.samples.push(format!("[ctor] {} nodes built by Miniscript::{{TRUE,FALSE,pk,pkh,pk_k,pk_h,expr_raw_pkh,after,older,sha256,..,multi,sortedmulti,multi_a,sortedmulti_a}} in 4 contexts: stored ty/ext == type_check(node)", ctor_nodes));
         Ok(json!({
+            "constructor_nodes_checked": ctor_nodes,
             "enumerated_tuples": evals,
             "enumerated_tuples_accepted_by_spec": accepted,
             "enumerated_families": if full {
@@ -584,3 +589,75 @@ pub fn children_of<Pk: miniscript::MiniscriptKey, C: miniscript::ScriptContext>(
         _ => vec![],
     }
 }
+
+
+fn ctor_one<Pk: miniscript::MiniscriptKey, C: miniscript::ScriptContext>(name: &str, ms: Miniscript<Pk, C>) -> Result<(), Failure> {
+    use miniscript::miniscript::types::ExtData;
+    let ty = Type::type_check(&ms.node).map_err(|e| Failure { sig: format!("ctor-untypable/{}", name), msg: format!("Miniscript::{} built a node that the type checker rejects: {}", name, e) })?;
+    if ty != ms.ty {
+        return fail(&format!("ctor-type/{}", name), format!("Miniscript::{} stores type {:?}, the type checker computes {:?} for {}", name, ms.ty, ty, ms));
+    }
+    let ext = ExtData::type_check(&ms.node);
+    if ext != ms.ext {
+        return fail(&format!("ctor-ext/{}", name), format!("Miniscript::{} stores {:?}, the type checker computes {:?} for {}", name, ms.ext, ext, ms));
+    }
+    Ok(())
+}
+
+fn ctor_ctx<C: miniscript::ScriptContext>() -> Result<usize, Failure> {
+    use bitcoin::hashes::Hash;
+    use miniscript::{AbsLockTime, RelLockTime, Threshold};
+    use std::str::FromStr;
+    let mut n = 0usize;
+    let keys: Vec<bitcoin::PublicKey> = vec![
+        bitcoin::PublicKey::from_str(&crate::keys::key_compressed(0)).unwrap(),
+        bitcoin::PublicKey::from_str(&crate::keys::key_compressed(1)).unwrap(),
+        bitcoin::PublicKey::from_str(&crate::keys::key_uncompressed(2)).unwrap(),
+        bitcoin::PublicKey::from_str(&crate::keys::key_compressed(3)).unwrap(),
+    ];
+    type M<C> = Miniscript<bitcoin::PublicKey, C>;
+    ctor_one("TRUE", M::<C>::TRUE)?;
+    ctor_one("FALSE", M::<C>::FALSE)?;
+    n += 2;
+    for k in &keys {
+        ctor_one("pk", M::<C>::pk(*k))?;
+        ctor_one("pkh", M::<C>::pkh(*k))?;
+        ctor_one("pk_k", M::<C>::pk_k(*k))?;
+        ctor_one("pk_h", M::<C>::pk_h(*k))?;
+        n += 4;
+    }
+    ctor_one("expr_raw_pkh", M::<C>::expr_raw_pkh(bitcoin::hashes::hash160::Hash::hash(b"x")))?;
+    for v in [1u32, 144, 65535, 0x40_0001, 0x1_0005] {
+        ctor_one("older", M::<C>::older(RelLockTime::from_consensus(v).unwrap()))?;
+        n += 1;
+    }
+    for v in [1u32, 499_999_999, 500_000_000, 0x7fff_ffff] {
+        ctor_one("after", M::<C>::after(AbsLockTime::from_consensus(v).unwrap()))?;
+        n += 1;
+    }
+    ctor_one("sha256", M::<C>::sha256(bitcoin::hashes::sha256::Hash::hash(b"x")))?;
+    ctor_one("hash256", M::<C>::hash256(miniscript::hash256::Hash::hash(b"x")))?;
+    ctor_one("ripemd160", M::<C>::ripemd160(bitcoin::hashes::ripemd160::Hash::hash(b"x")))?;
+    ctor_one("hash160", M::<C>::hash160(bitcoin::hashes::hash160::Hash::hash(b"x")))?;
+    n += 5;
+    for nk in 1..=keys.len() {
+        for k in 1..=nk {
+            let ks: Vec<bitcoin::PublicKey> = keys[..nk].to_vec();
+            ctor_one("multi", M::<C>::multi(Threshold::new(k, ks.clone()).unwrap()))?;
+            ctor_one("sortedmulti", M::<C>::sortedmulti(Threshold::new(k, ks.clone()).unwrap()))?;
+            ctor_one("multi_a", M::<C>::multi_a(Threshold::new(k, ks.clone()).unwrap()))?;
+            ctor_one("sortedmulti_a", M::<C>::sortedmulti_a(Threshold::new(k, ks).unwrap()))?;
+            n += 4;
+        }
+    }
+    // 17..20 keys: two-byte pushes of k / n
+    let many: Vec<bitcoin::PublicKey> = (0..20).map(|i| bitcoin::PublicKey::from_str(&crate::keys::key_compressed(i % 12)).unwrap()).collect();
+    for (k, nk) in [(1usize, 17usize), (16, 17), (17, 17), (17, 20), (20, 20)] {
+        ctor_one("multi", M::<C>::multi(Threshold::new(k, many[..nk].to_vec()).unwrap()))?;
+        ctor_one("multi_a", M::<C>::multi_a(Threshold::new(k, many[..nk].to_vec()).unwrap()))?;
+        n += 2;
+    }
+    Ok(n)
+}
+
+fn ctor_checks() -> Result<usize, Failure> { Ok(ctor_ctx::<BareCtx>()? + ctor_ctx::<Legacy>()? + ctor_ctx::<Segwitv0>()? + ctor_ctx::<Tap>()?) }
